@@ -277,6 +277,44 @@ ReadBack(sol) == Decode(AbstractDoc(sol))
 Routes == {"writer", "doc"}
 SrcState(steps, r) == IdxOf(steps, Asc(steps)[r])
 
+(* Histories.  A Solution and its PlanningProblemSolutions are mutable objects with public attributes           *)
+(* (planning_problem_id, cost_function, vehicle_type, trajectory; scenario_id, computation_time, processor_name,  *)
+(* date).  The contract is HISTORY-FREE: the written document reflects the CURRENT attribute values, however the   *)
+(* object got there - `sol` below is always the current descriptor; AbstractDoc, ReadBack, Carried do not look at  *)
+(* how it was reached.  A history is (origin, init): the object is first "built" from the descriptor `init` with   *)
+(* the public constructors, or built and then "read" back from its own document, then every public attribute in   *)
+(* which `init` differs from `sol` is assigned the value of `sol`; origin "none" = no history (init = sol).        *)
+Origins == {"none", "built", "read"}
+MutTokens == {"ppid", "cost", "vtype", "traj", "kind", "scen", "ct", "proc", "date"}
+OtherKind(k, m) == IF k # m THEN m ELSE IF m \in {"KS", "ST", "MB"} THEN "Input" ELSE IF m = "PM" THEN "PMInput" ELSE k
+(* an initial planning problem solution that differs from p in the attributes named by toks (the vehicle model is *)
+(* not assignable independently of the trajectory and stays)                                                       *)
+InitPP(p, toks) ==
+  LET k0 == IF "kind" \in toks THEN OtherKind(p.kind, p.model) ELSE p.kind
+      st == IF "traj" \in toks THEN <<p.steps[1] + 10>> ELSE IF "kind" \in toks THEN <<0, 1>> ELSE p.steps
+      vs == IF "traj" \in toks \/ "kind" \in toks
+            THEN [s \in 1..Len(st) |-> [j \in 1..NV(k0) |-> "neg"]] ELSE p.vals
+  IN [kind |-> k0, model |-> p.model, vtype |-> IF "vtype" \in toks THEN (p.vtype % 4) + 1 ELSE p.vtype,
+      cost |-> IF "cost" \in toks THEN (IF p.cost = "JB1" THEN "WX1" ELSE "JB1") ELSE p.cost,
+      ppid |-> IF "ppid" \in toks THEN p.ppid + 100 ELSE p.ppid, steps |-> st, vals |-> vs]
+Swap(tok, a, b) == IF tok = a THEN b ELSE a
+(* idx = the planning problem solutions the per-solution tokens apply to *)
+InitOf(sol, toks, idx) ==
+  [pps |-> [i \in 1..Len(sol.pps) |-> IF i \in idx THEN InitPP(sol.pps[i], toks) ELSE sol.pps[i]],
+   ct |-> IF "ct" \in toks THEN Swap(sol.ct, "ord", "tiny") ELSE sol.ct,
+   date |-> IF "date" \in toks THEN Swap(sol.date, "plain", "eoy") ELSE sol.date,
+   proc |-> IF "proc" \in toks THEN Swap(sol.proc, "plain", "tm") ELSE sol.proc,
+   scen |-> IF "scen" \in toks THEN Swap(sol.scen, "T", "S") ELSE sol.scen, route |-> sol.route]
+HistoryInScope(sol, h) ==
+  /\ h.origin \in Origins
+  /\ h.origin = "none" => h.init = sol
+  /\ h.origin # "none" => /\ h.init # sol /\ h.init.route = "writer" /\ sol.route = "writer"
+                           /\ Len(h.init.pps) = Len(sol.pps)
+                           /\ \A i \in DOMAIN sol.pps : /\ h.init.pps[i].model = sol.pps[i].model
+                                                         /\ Admits(h.init.pps[i].kind, h.init.pps[i].model)
+                                                         /\ h.init.pps[i].cost \in CostsOf(h.init.pps[i].model)
+                           /\ Cardinality({h.init.pps[q].ppid : q \in DOMAIN sol.pps}) = Len(sol.pps)
+
 (* what the statement compares, taken from the solution itself *)
 Carried(sol) ==
   [err |-> "", vids |-> [i \in 1..Len(sol.pps) |-> VId(sol.pps[i])],
